@@ -31,9 +31,14 @@ TCall ==
             \cup (IF ~Ev.raised /\ Ev.bdev > TolBatch(Ev.grid) THEN {"HIST.value-depends-on-batch"} ELSE {}))
   /\ Call(Ev.obj, Ev.variant, Ev.t)
   /\ l' = l + 1
+(* batch independence of one class: a shuffled request against one-point requests *)
+TBatch ==
+  /\ IsOp("Batch")
+  /\ Report(Ev, IF ~Ev.raised /\ Ev.dev > TolBatch(Ev.grid) THEN {"HIST.value-depends-on-batch"} ELSE {})
+  /\ l' = l + 1 /\ UNCHANGED <<objs, glob, shtol, dicts, read, hist>>
 TReset == IsOp("Reset") /\ objs' = <<>> /\ glob' = [m \in DOMAIN glob |-> None] /\ shtol' = 1
           /\ dicts' = <<>> /\ read' = None /\ hist' = <<>> /\ l' = l + 1
-TNext == TConstruct \/ TSetTol \/ TSolve \/ TCall \/ TReset
+TNext == TConstruct \/ TSetTol \/ TSolve \/ TCall \/ TBatch \/ TReset
 TSpec == TInit /\ [][TNext]_tvars
 Accepted == TLCGet("stats").diameter - 1 = Len(TLog)
 ==========================================================================
